@@ -90,7 +90,7 @@ def _inductive(chk):
         chk.add_mc(core.model_check("primes/MC_PrimeSieveInd.tla", "MC_PrimeSieveInd_%d.cfg" % wd, workers=2, timeout=600))
     # the proof, and its non-vacuity (same scripts on `while o <= len` and on initial offsets p - w mod p)
     ind["runs"].append(core.ind_expect(core.tlapm("primes/PrimeSieveProofs.tla", timeout=900), "ok", "PrimeSieveProofs"))
-    bad = core.ind_expect(core.tlapm("primes/PrimeSieveProofsBad.tla", timeout=900), "failed", "PrimeSieveProofsBad")
+    bad = core.ind_expect(core.tlapm("primes/PrimeSieveProofsBad.tla", timeout=900, retries=0), "failed", "PrimeSieveProofsBad")
     if bad["failed"] < 2:
         raise core.ToolError("PrimeSieveProofsBad: %d failed obligations, expected both false claims to fail" % bad["failed"])
     ind["runs"].append(bad)
